@@ -1,0 +1,37 @@
+//go:build verif
+
+package gofakes3
+
+import (
+	"io"
+	"time"
+)
+
+// Exported wrappers around unexported helpers, compiled only with the
+// "verif" build tag. They exist so that an external verification harness can
+// call the real functions directly; they add no behaviour.
+
+func VerifParseRangeHeader(s string) (*ObjectRangeRequest, error) { return parseRangeHeader(s) }
+
+func VerifParseClampedInt(in string, defaultValue, min, max int64) (int64, error) {
+	return parseClampedInt(in, defaultValue, min, max)
+}
+
+func VerifNewChunkedReader(inner io.Reader) io.Reader { return newChunkedReader(inner) }
+
+type VerifHashingReader interface {
+	io.Reader
+	Sum(into []byte) []byte
+}
+
+func VerifNewHashingReader(inner io.Reader, expectedMD5Base64 string) (VerifHashingReader, error) {
+	return newHashingReader(inner, expectedMD5Base64)
+}
+
+func VerifMetadataHeaders(headers map[string][]string, at time.Time, sizeLimit int) (map[string]string, error) {
+	return metadataHeaders(headers, at, sizeLimit)
+}
+
+func VerifValidETag(v string) bool { return validETag(v) }
+
+func VerifNewUploader(b Backend, ts TimeSource) MultipartBackend { return newUploader(b, ts) }
